@@ -6,7 +6,8 @@
 (*                                                                         *)
 (*  plan[c]  the messages channel c transmits, in order; a message is      *)
 (*           [id, cmd, len]; a "stray" channel transmits only orphan       *)
-(*           continuation packets (kind = "orphan")                        *)
+(*           continuation packets (kind = "orphan"); a message with        *)
+(*           cut = k > 0 is abandoned after its first k packets            *)
 (*  pos[c]   how many packets of c's stream the receiver has been fed      *)
 (*  rx       the receiver's per-channel table (Hid!Recv)                   *)
 (*  dlv      every delivery so far, in order: [chan, cmd, len, parts, at]  *)
@@ -21,6 +22,8 @@ CONSTANTS Channels,      \* set of channel numbers that transmit messages
           Cmds,          \* abstract command values a message may carry
           MaxMsgs,       \* messages per channel (1..MaxMsgs)
           MaxPkts,       \* bound on packets per channel stream
+          Cuts,          \* {0}: every message is transmitted whole; k > 0 in the set: a message may be abandoned
+                         \* after its first k packets (k less than its packet count) - the sender goes away
           Export         \* TRUE: print every complete behaviour as JSON
 
 VARIABLES plan, pos, rx, dlv, hist
@@ -32,23 +35,27 @@ All == Channels \cup Strays
 RECURSIVE Concat(_)
 Concat(ss) == IF ss = <<>> THEN <<>> ELSE Head(ss) \o Concat(Tail(ss))
 
+\* the packets of a message that are actually transmitted
+Sent(c, m) == IF m.cut = 0 THEN Packets(c, m) ELSE SubSeq(Packets(c, m), 1, m.cut)
+NSent(m) == IF m.cut = 0 THEN Len(Fragment(m.len)) ELSE m.cut
+
 Stream(c) ==
     IF c \in Strays
     THEN [i \in 1..2 |-> [chan |-> c, kind |-> "cont", cmd |-> 0, bcnt |-> 0, seq |-> i - 1,
                            avail |-> ContCap, id |-> 0, off |-> 0, dlen |-> ContCap]]
-    ELSE Concat([k \in 1..Len(plan[c]) |-> Packets(c, plan[c][k])])
+    ELSE Concat([k \in 1..Len(plan[c]) |-> Sent(c, plan[c][k])])
 
 \* number of packets of the first k messages of c
 RECURSIVE PktsUpTo(_, _)
 PktsUpTo(c, k) == IF k = 0 THEN 0
-                  ELSE PktsUpTo(c, k - 1) + Len(Fragment(plan[c][k].len))
+                  ELSE PktsUpTo(c, k - 1) + NSent(plan[c][k])
 
-PlanOK(p) == /\ \A k \in 1..Len(p) : SenderAccepts(p[k].len)
-             /\ LET n[k \in 0..Len(p)] == IF k = 0 THEN 0 ELSE n[k-1] + Len(Fragment(p[k].len))
+PlanOK(p) == /\ \A k \in 1..Len(p) : SenderAccepts(p[k].len) /\ p[k].cut < Len(Fragment(p[k].len))
+             /\ LET n[k \in 0..Len(p)] == IF k = 0 THEN 0 ELSE n[k-1] + NSent(p[k])
                 IN n[Len(p)] <= MaxPkts
 
 \* message ids are c*10 + k so that payloads of different messages differ
-Plans(c) == { p \in UNION {[1..n -> [id : {0}, cmd : Cmds, len : Lens]] : n \in 1..MaxMsgs} :
+Plans(c) == { p \in UNION {[1..n -> [id : {0}, cmd : Cmds, len : Lens, cut : Cuts]] : n \in 1..MaxMsgs} :
                 /\ PlanOK(p) }
 Tag(c, p) == [k \in 1..Len(p) |-> [p[k] EXCEPT !.id = c * 10 + k]]
 
@@ -63,7 +70,7 @@ TaggedPlan(c) == Tag(c, plan[c])
 
 StreamT(c) ==
     IF c \in Strays THEN Stream(c)
-    ELSE Concat([k \in 1..Len(plan[c]) |-> Packets(c, TaggedPlan(c)[k])])
+    ELSE Concat([k \in 1..Len(plan[c]) |-> Sent(c, TaggedPlan(c)[k])])
 
 Feed(c) ==
     /\ pos[c] < Len(StreamT(c))
@@ -104,15 +111,18 @@ Spec == Init /\ [][Next]_vars
 
 DeliveredOn(c) == SelectSeq(dlv, LAMBDA d : d.chan = c)
 
-\* messages of c all of whose packets have been fed
-FullyFed(c) == { k \in 1..Len(plan[c]) : PktsUpTo(c, k) <= pos[c] }
+\* whole messages of c all of whose packets have been fed
+FullyFed(c) == { k \in 1..Len(plan[c]) : plan[c][k].cut = 0 /\ PktsUpTo(c, k) <= pos[c] }
+Whole(c) == SelectSeq(TaggedPlan(c), LAMBDA m : m.cut = 0)
 
+\* every whole message is delivered exactly once, in order, with its own command and payload - whatever was
+\* abandoned on the channel before it; an abandoned message is never delivered
 ExactlyOnceInOrder ==
     \A c \in Channels :
         LET d == DeliveredOn(c) IN
         /\ Len(d) = Cardinality(FullyFed(c))
         /\ \A k \in 1..Len(d) :
-              LET m == TaggedPlan(c)[k] IN
+              LET m == Whole(c)[k] IN
               /\ d[k].cmd = m.cmd
               /\ d[k].len = m.len
               /\ d[k].parts = Ranges(m.id, m.len)
